@@ -39,3 +39,11 @@ chk(
     "runtime monitoring: unique-marker tracing of generated configuration values into named registers, compared with an independent by-name reference",
     "DESIGN.md section 3 C08",
 )
+chk(
+    "C05",
+    "translation_validation",
+    "memref.copy between generated layout pairs (row-major, strided with offsets, tiled-strided with several tile levels, paddings, dynamic bounds/steps) is lowered by the real snax-copy-to-dma and the emitted arith/scf/func.call code is executed on a byte-level DMA machine with runtime descriptors; every destination element must hold the tags of the corresponding source element at the address given by an independent reference layout function, reads/writes must stay inside the footprints, conflicting writes are reported.",
+    TB + "DMA machine vf/interp/dma_m.py (snrt_dma_start_1d/2d semantics from runtime/include/snax_rt.h); reference layout function vf/ref/layout.py; dynamic strides are only judged when they follow the compiler's documented contiguity assumption (others are out of domain).",
+    "runtime monitoring: execution of the emitted DMA loop nests on a byte-memory machine with unique byte tags, compared against a reference layout function",
+    "DESIGN.md section 3 C05",
+)
